@@ -7,13 +7,13 @@ sys.path.insert(0, os.path.join(VERIF, 'tools'))
 from props import PROPS
 
 CLAIMS = {
- 'C01': dict(text="Coq theorems, for every well-formed header: the units the GENERATED producers (NumPy route, segyio route, reduced-I/O reader) hand to the compressor are, in queue order, exactly the units the specification places at positions 0,1,2,.. of the data section; every cell of the padded cube is the edge-replicated source sample; hence the unit consulted for a real voxel is the ZFP code of the source unit containing it, independent of blockshape/route. Partial: the codec is abstract (structural assumption validated against zfpy), 2D is C09, VDS/ZGY routes not modelled.",
+ 'C01': dict(text="Coq theorems, for every well-formed header: the units the GENERATED producers (NumPy route, segyio route, reduced-I/O reader) hand to the compressor are, in queue order, exactly the units the specification places at positions 0,1,2,.. of the data section; every cell of the padded cube is the edge-replicated source sample; hence the unit consulted for a real voxel is the ZFP code of the source unit containing it, independent of blockshape/route. VDS / ZGY / SGZ-as-input routes (Props/C01a.v): the extension dispatch of SeismicFile.open and the converter classes as GENERATED, a generated census that the data path (producers, compressor, writer, make_header) never looks at the file type, and cell fidelity for every handle that satisfies the contract iline[ilines[i]] = source inline i, which the pyzgy/pyvds accessor model meets on every axis with non-negative inline numbers (known finding D53 otherwise); both routes are executed (VDS fixture, ZGY fixtures and generated ZGY cubes). Partial: the codec is abstract (structural assumption validated against zfpy), 2D is C09.",
              note="ZFP structural assumption; np.pad/numpy slicing hand-modelled; queue FIFO order from C16; oracle = bitwise comparison with an independent encoder on every run",
              technique="Coq proof (mixed-radix enumeration) over a producer model regenerated from source + differential correspondence + independent-encoder oracle"),
  'C02': dict(text="Machine-checked theorems (Coq), for every well-formed header and all in-range arguments, that the read methods as GENERATED from read.py/loader.py return exactly the specification decoder's cells: inline, crossline, z-slice (default layout: Props/C02.v), read_subvolume and read_volume in the default layout (C02a) and in every layout with any padding (C02b), get_trace and trace windows in both layouts, both diagonal readers with all 16 shapes of their cropping arguments, completeness/distinctness of the diagonal enumeration (C02c); by-number / by-coordinate entry points = the ordinal reads at the first-occurrence ordinal, on every axis incl. descending, non-unit and zero increments (C02d); the xarray backend returns numpy's selection of the decoded volume for every basic key (ints, slices with any start/stop/step) and tools.cube = read_volume (C02e). Samples are provenance (unit, cell), the codec is abstract.",
              note="codec abstract (provenance); translator + Lib/Py.v semantics trusted; correspondence model=implementation on every run; specification-only decoder as oracle",
              technique="Coq proof over a model regenerated from source + differential correspondence + specification-decoder oracle"),
- 'C03': dict(text="Coq theorems: (version) the encoding GENERATED from version.py is a bijection on all majors and strictly monotone for the release order, gates mean what the specification says; (container, converters) for every valid setting and cube the header fields GENERATED from make_header state the true dimensions/rate/blockshape/trace count, the header is well-formed (one block = 4096 bytes), the stated disk blocks are exactly padded voxels x bits / 8 = unit bytes x the number of units the producers write (C01), and the footer stride both write_headers use equals the stride the GENERATED reader derives for post-0.2.1 files, so array k sits where the reader looks. Cropper / re-blocker conformance: C10 / C12. Known finding D19 (version strings without a patch component).",
+ 'C03': dict(text="Coq theorems: (version) the encoding GENERATED from version.py is a bijection on all majors and strictly monotone for the release order, gates mean what the specification says; (container, converters) for every valid setting and cube the header fields GENERATED from make_header state the true dimensions/rate/blockshape/trace count, the header is well-formed (one block = 4096 bytes), the stated disk blocks are exactly padded voxels x bits / 8 = unit bytes x the number of units the producers write (C01), and the footer stride both write_headers use equals the stride the GENERATED reader derives for post-0.2.1 files, so array k sits where the reader looks. ZGY route (Props/C03b.v): the header it writes is well-formed and states the true dimensions, the table names exactly the four stored arrays 181/185/189/193 in footer order, the constants 115/117/71, the source and detection codes, and every field of every trace reads back through the reader model. Cropper / re-blocker conformance: C10 / C12. Known finding D19 (version strings without a patch component).",
              note="string constructor is a hand model pinned to the source text; compositions of writers covered by the container harness (spec-only decoder) and by C10/C12 preserving well-formedness",
              technique="Coq proof (arithmetic) over generated header fields + correspondence + specification-only decoder oracle on every writer and composition"),
  'C07': dict(text="Coq theorems on the GENERATED read plans, for every well-formed header: exactly which ranges are issued by inline / crossline / z-slice reads (default layout), sub-volumes, traces and trace windows (every layout: C07a, C07b) and that no range repeats within a call; opening touches only header blocks; with preload the data section is requested exactly once in the whole session whatever follows; the range-read choke point issues one request or none; file and blob backends issue the same (offset, length); regenerating a trace header of a regular file requests exactly word t of each stored array once (after the D42 repair; refuted-witness theorem for the unrepaired loop); within one diagonal call no chunk is fetched twice for any LRU capacity >= 1 (C07c); an xarray selection reads exactly what read_subvolume reads on its tight bounding box, nothing for an empty selection (C07d). Observed (offset, length) sequences of a counting file are compared with the model and an independent block oracle on every run.",
@@ -33,7 +33,7 @@ CLAIMS.update({
  'C09': dict(text="Coq theorems for every well-formed 2D header: read_subplane and get_trace (fast and general path) as GENERATED return exactly the specification decoder's cells and issue exactly the intersected blocks; the GENERATED 2D producer writes, at unit_index2 (xu,zu), the code of that unit of the section extended by replicating the last trace/sample; the 2D header is well-formed and states the truth; volume-style reads raise the dimensionality error.",
              note="2-D ZFP unit-locality validated per case; rates below 1 refused (D13 fix)",
              technique="Coq proof over generated reader and producer + correspondence + 2-D zfpy image oracle"),
- 'C13': dict(text="Coq theorems relative to a hand model of segyio's Line/Sequence slicing (validated against segyio thousands of times per run): for every axis (either direction, any increment) and every slice of the documented grammar the emulator's key list, as GENERATED from accessors.py, equals segyio's (same lines, same order); ordinal slices, negative ordinals, len, iteration and rejection agree; subvolume[a:b:c] selects exactly range(a,b,c) on ascending axes. Known findings D25, D24-table, D27-subvolume-descending.",
+ 'C13': dict(text="Coq theorems relative to a hand model of segyio's Line/Sequence slicing (validated against segyio thousands of times per run): for every axis (either direction, any increment) and every slice of the documented grammar the emulator's key list, as GENERATED from accessors.py, equals segyio's (same lines, same order); ordinal slices, negative ordinals, len, iteration and rejection agree; subvolume[a:b:c] selects exactly range(a,b,c) in axis order on axes of either direction, bad bounds are rejected for both signs. Known findings D25, D24-table.",
              note="segyio represented by a validated hand model; values behind keys are C02/C04",
              technique="Coq proof (slice.indices / range arithmetic) over generated accessor code + program-grammar differential testing against segyio"),
 })
@@ -55,14 +55,14 @@ CLAIMS.update({
              technique="Coq proof over generated resolver + exhaustive-grid correspondence + conformance/fidelity oracle"),
 })
 CLAIMS.update({
- 'C05': dict(text="Coq theorems: integer axes - for every start, non-zero step (either sign) and count whose values fit int32, the axis the GENERATED reader regenerates from the fields the GENERATED writer stores equals the source axis (two's-complement wrap explicit; unbounded, by arithmetic); counts, trace count, structured flag. Sample axis - binary64 modelled with Coq primitive floats: every interval 1..65535 us (start 0) is stored exactly and the regenerated samples are bit-equal, proved by vm_compute on the finite domain written in the statement; other (interval, start) combinations are sampled by the harness.",
-             note="PrimFloat/Uint63 kernel primitives (listed by Print Assumptions) model binary64; struct/numpy/segyio formula hand semantics",
-             technique="Coq proof (modular arithmetic, unbounded) + finite-domain float proof by vm_compute + correspondence on float.hex literals"),
+ 'C05': dict(text="Coq theorems: integer axes - for every start, non-zero step (either sign) and count whose values fit int32, the axis the GENERATED reader regenerates from the fields the GENERATED writer stores equals the source axis (two's-complement wrap explicit; unbounded, by arithmetic); counts, trace count, structured flag. Sample axis - binary64 modelled with Coq primitive floats: for EVERY interval 1..65535 us, EVERY start -32768..32767 ms and every length 2 <= n < 2^32 the interval and start are stored exactly and the regenerated samples are bit-equal to segyio's (Props/C05b.v: rounding-error analysis with Flocq over the standard library's axiomatisation of the primitive floats and the reals, all named in the evidence); the same on finite domains by axiom-free vm_compute sweeps (Props/C05.v). ZGY / VDS / SGZ-sourced files (Props/C05a.v): stored inline / crossline header grids for all axes, and which sample-axis branch the GENERATED reader takes and what it yields, for all binary64 values.",
+             note="PrimFloat/Uint63 kernel primitives model binary64; C05b depends on Coq.Floats.FloatAxioms, Uint63 specs, the classical reals, classic and functional_extensionality_dep (standard-library axioms, listed by Print Assumptions); struct/numpy/segyio formula hand semantics",
+             technique="Coq proof (modular arithmetic, unbounded; Flocq rounding-error analysis for the float fields) + finite-domain float sweeps by vm_compute + correspondence on float.hex literals"),
  'C11': dict(text="Coq theorems over the windowed converter as GENERATED (window acceptance, Geometry3d ranges, header allocation, make_header fields, io_thread_func / read_line index arithmetic): for every source size, every window 0 <= min < max <= n on both axes (ordinal 0 included), both SEG-Y readers and all detection modes, converting with the window yields the same container model (dims, origins, increments, trace count, header arrays entry by entry, every plane-set buffer cell, hashed rows) as converting the restricted source alone; guard tables_agree for heuristic detection (known finding D6-heuristic-detection-from-source-corners). C11c: the window the CLI hands to the converter is its four options (a bound of 0 is a bound; a partial window is no window), so the CLI route inherits the API theorem.",
              note="traces abstract; compression is C01; reduced-I/O self-test outcome is an input",
              technique="Coq proof (index arithmetic, induction over plane sets) over generated window code + file-identity oracle against the sub-cube conversion"),
- 'C17': dict(text="Coq theorems for every read plan, fault assignment (exception / short / empty, any positions, any number) and completion order: if any range read is not delivered in full the call raises, otherwise the assembled buffer is the true one, independent of the order in which parallel reads complete (permutation lemma over disjoint in-bounds splices whose slots are the GENERATED expressions of the four fan-outs); both backends pass through the GENERATED length check; every future is collected.",
-             note="thread timing = arbitrary permutation of atomic slice assignments; two adv-layout slot equations checked per file",
+ 'C17': dict(text="Coq theorems for every read plan, fault assignment (exception / short / empty, any positions, any number) and completion order: if any range read is not delivered in full the call raises, otherwise the assembled buffer is the true one, independent of the order in which parallel reads complete (permutation lemma over disjoint in-bounds splices whose slots are the GENERATED expressions of the four fan-outs); both backends pass through the GENERATED length check; every future is collected; the slot conditions of the (N,N,4) fan-out follow from well-formedness of the header for the GENERATED byte counts (Props/C17a.v).",
+             note="thread timing = arbitrary permutation of atomic slice assignments",
              technique="Coq proof over generated guard, wiring and slot expressions + exhaustive fault-position injection on the real code"),
  'C18': dict(text="Coq theorems for every crash point (any prefix of the GENERATED write order of both converters, with a partial last write) and every robust reader program: a range not wholly inside the partial file raises; bytes no pending write touches are final; so a read raises or returns what the complete file returns; the patched header bytes (count, table, hash) are used only by the three parsers named; thorough-mode table patches torn at row boundaries are refused or final. Known findings D40 (hash before its patch), D41 (table row torn inside a value).",
              note="crash point = prefix of program-order writes; OS write-back not modelled",
